@@ -41,6 +41,7 @@ class QuaToSM(ConvertBase):
         sms.background = qua.background_file
         sms.sample_start = qua.song_preview_time
         sms.sample_length = 10
-        sms.offset = qua.stack().offset.min()
+        # Beat 0 of the .sm is the first bpm point
+        sms.offset = qua.bpms.first_offset()
 
         return sms
